@@ -118,7 +118,8 @@ pub struct Ev {
     pub b: i64,
 }
 
-#[derive(Debug, Default, Clone)]
+#[derive(Debug, Default, Clone, Serialize, Deserialize)]
+#[serde(default)]
 pub struct ProcStats {
     pub spawns: u64,
     pub spawn_errors: u64,
